@@ -758,3 +758,82 @@ func ruleNAV2(p *Program) *RuleResult {
 	r.floor("identifier_sinks", 4)
 	return r
 }
+
+// NAV7: flattening a repeated field yields every element: in the loops of
+// FieldExpression.Evaluate that read a protoreflect List by index, no path from
+// the read to the next iteration avoids the append to the output (a skipped
+// element changes the count and shifts the indexes of the result).
+func ruleNAV7(p *Program) *RuleResult {
+	r := newResult("NAV7")
+	fn, err := p.Method("fhirpath/internal/expr", "FieldExpression", "Evaluate")
+	if err != nil {
+		return r.anchorFail(err)
+	}
+	isAppendBlock := func(b *ssa.BasicBlock) bool {
+		for _, ins := range b.Instrs {
+			if c, ok := ins.(*ssa.Call); ok {
+				if bi, ok := c.Common().Value.(*ssa.Builtin); ok && bi.Name() == "append" {
+					return true
+				}
+			}
+		}
+		return false
+	}
+	n := 0
+	for li, lp := range naturalLoops(fn) {
+		// innermost loops reading a list element
+		var getBlock *ssa.BasicBlock
+		var getIns ssa.Instruction
+		for b := range lp.body {
+			for _, ins := range b.Instrs {
+				if c, ok := ins.(*ssa.Call); ok && c.Common().IsInvoke() && c.Common().Method.Name() == "Get" && strings.HasSuffix(typeShort(c.Common().Value.Type()), "protoreflect.List") {
+					getBlock, getIns = b, ins
+				}
+			}
+		}
+		if getBlock == nil {
+			continue
+		}
+		n++
+		r.count("flatten_loops", 1)
+		key := fmt.Sprintf("expr.FieldExpression.Evaluate|list loop %d", n)
+		_ = li
+		// search from the read, inside the loop, without crossing an append
+		seen := map[*ssa.BasicBlock]bool{}
+		stack := []*ssa.BasicBlock{getBlock}
+		skip := false
+		for len(stack) > 0 {
+			b := stack[len(stack)-1]
+			stack = stack[:len(stack)-1]
+			if seen[b] {
+				continue
+			}
+			seen[b] = true
+			if b != getBlock && isAppendBlock(b) {
+				continue
+			}
+			if b == getBlock && isAppendBlock(b) {
+				// append in the same block after the read: fine
+				continue
+			}
+			for _, s := range b.Succs {
+				if s == lp.header {
+					skip = true
+				}
+				if lp.body[s] && s != lp.header {
+					stack = append(stack, s)
+				}
+			}
+		}
+		if skip {
+			r.bad(key, "an element of a repeated field can be skipped: a path from List.Get to the next iteration avoids the append to the result", p.instrPos(getIns),
+				"navigation must return exactly the elements of the JSON array; a dropped element changes the count and shifts later indexes")
+		} else {
+			r.ok(key, "every element read from the repeated field is appended to the result (or the evaluation fails)", p.instrPos(getIns), "no path from the element read to the loop latch avoids the append", true)
+		}
+	}
+	if n == 0 {
+		r.undecided("expr.FieldExpression.Evaluate|list loop", "no loop reading a protoreflect List by index found", p.pos(fn.Pos()), "shape changed")
+	}
+	return r
+}
